@@ -64,7 +64,7 @@ def monitor(c):
 
 
 RAISING = ["fail", "error", "subFail", "subFail2", "errTearDown", "bodyAndTearDown", "errSetUp", "errCleanup",
-           "skipSetUp", "skipBody", "skipTearDown", "subSkip", "xfail", "xfailSub", "uxsuccess"]
+           "skipSetUp", "skipBody", "skipTearDown", "subSkip", "xfail", "xfailSub", "uxsuccess", "subFailThenSkip", "failThenSkipTearDown", "errThenSkipCleanup", "subSkipThenFail"]
 
 
 def gen_cases(ctx):
